@@ -1,29 +1,34 @@
-(** * C08 - Intermediate values are written before read within every activation *)
+(** * C08 - Intermediate values are written before read within every activation
+
+    [search_invalid], [cleanup_bool_cast], [cleanup] model the CURRENT tree (CaseWhen arm corrected by commit
+    a252909, bool-cast pass corrected by 1da1fb5); the [_coded] variants are the code as it was before and are
+    kept only for the regression witnesses. *)
 From Coq Require Import PArith List Bool.
 Import ListNotations.
 From Cohdl Require Import Vhdl.Value Vhdl.Syntax Vhdl.Sem Vhdl.DefAssign Models.Temps Models.TempsProofs.
 
-(** the CaseWhen arm of search_invalid_temporaries AS CODED accepts a tree with an undefined read *)
-Theorem C08_search_refuted :
-  exists t, wf_block t = true /\ search_invalid [] t = Accept /\ ~ def_before_use [] t.
-Proof. exact search_refuted. Qed.
-Print Assumptions C08_search_refuted.
-
-(** ... and with the corrected CaseWhen arm (intersection over all branches and the default; nothing without
-    a default) the check is sound for trees of any shape and depth: every accepted tree has, on every
-    execution path, a write before every read of a temporary (not flagged maybe-uninitialized) *)
+(** the temporaries check is sound for trees of any shape and depth: every accepted tree has, on every
+    execution path, a write before every read of a temporary (not flagged maybe-uninitialized).
+    [wf_block]: a variable assignment to a temporary does not read that temporary. *)
 Theorem C08_search_sound : forall MU t, wf_block t = true ->
-  search_invalid_fixed MU t = Accept -> def_before_use MU t.
-Proof. exact search_fixed_sound. Qed.
+  search_invalid MU t = Accept -> def_before_use MU t.
+Proof. exact search_sound. Qed.
 Print Assumptions C08_search_sound.
 
+(** non-vacuity; the old witness (definition only in the first case) is now rejected *)
 Example C08_search_sound_nonvacuous :
   let d := SExpr false [OOther] (OTemp 1) in
   let t := BCons (SCase OOther (BrCons OOther (BCons d BNil) (BrCons OOther (BCons d BNil) BrNil)) true (BCons d BNil))
            (BCons (SOther [OTemp 1]) BNil) in
-  wf_block t = true /\ search_invalid_fixed [] t = Accept /\ search_invalid_fixed [] match_witness = RejInvalid.
+  wf_block t = true /\ search_invalid [] t = Accept /\ search_invalid [] match_witness = RejInvalid.
 Proof. vm_compute. repeat split. Qed.
 Print Assumptions C08_search_sound_nonvacuous.
+
+(** regression: the CaseWhen arm as it was coded before a252909 accepted a tree with an undefined read *)
+Theorem C08_search_coded_refuted :
+  exists t, wf_block t = true /\ search_invalid_coded [] t = Accept /\ ~ def_before_use [] t.
+Proof. exact search_refuted. Qed.
+Print Assumptions C08_search_coded_refuted.
 
 Theorem C08_states_sound : forall sts, check_states sts = true ->
   forall s, In s sts -> forall pre x post, lin_block s = pre ++ AR (OTemp x) :: post -> In (AW (OTemp x)) pre.
@@ -36,28 +41,47 @@ Example C08_states_nonvacuous :
 Proof. exact states_nonvacuous. Qed.
 Print Assumptions C08_states_nonvacuous.
 
-(** cleanup_bool_cast AS CODED removes a write that a remaining read needs (chained casts) *)
-Theorem C08_cleanup_boolcast_refuted :
-  exists t, search_invalid_fixed [] t = Accept /\ def_before_use [] t /\ ~ def_before_use [] (cleanup t).
-Proof. exact boolcast_refuted. Qed.
-Print Assumptions C08_cleanup_boolcast_refuted.
+(** cleanup (unused-temporary removal + the bool-cast pass) removes no write that a remaining read needs:
+    PATH-WISE, definition-before-use is preserved, provided
+    - [bc_consistent]: every removed cast's target is replaced by the same temporary as its source, i.e. no
+      remaining read refers to a removed write (true when cast results are fresh temporaries whose source
+      cast was visited earlier; it is exactly what failed for chained casts before 1da1fb5), and
+    - [mu_closed]: a maybe-uninitialized temporary is only replaced by a maybe-uninitialized one.
+    Both are computable side conditions on the tree after unused-removal; the harness evaluates them per case. *)
+Theorem C08_cleanup_preserves : forall MU t,
+  def_before_use MU t ->
+  bc_consistent (cleanup_unused t) = true -> mu_closed MU (cleanup_unused t) = true ->
+  def_before_use MU (cleanup t).
+Proof. exact cleanup_preserves. Qed.
+Print Assumptions C08_cleanup_preserves.
 
-(** cleanup_unused removes no write that a remaining read needs: a temporary that is read anywhere in the
-    context keeps every one of its writes.  _partial: this is the unused-temporary half in program (visit) order;
-    the bool-cast half is REFUTED above for the code as written (C08_cleanup_boolcast_refuted), and a path-wise
-    statement [def_before_use t -> def_before_use (cleanup_fixed t)] for the proposed transitive replacement is
-    not proved (it is only evaluated per case by the harness). *)
-Theorem C08_cleanup_preserves_partial : forall t r,
+(** the unused-removal half needs no side condition *)
+Theorem C08_cleanup_unused_preserves : forall MU t,
+  def_before_use MU t -> def_before_use MU (cleanup_unused t).
+Proof. exact cleanup_unused_preserves. Qed.
+Print Assumptions C08_cleanup_unused_preserves.
+
+Theorem C08_cleanup_unused_keeps_writes : forall t r,
   In r (reads_of (lin_block t)) -> In (AW (OTemp r)) (lin_block t) ->
   In (AW (OTemp r)) (lin_block (cleanup_unused t)).
 Proof. exact cleanup_unused_keeps_needed_writes. Qed.
-Print Assumptions C08_cleanup_preserves_partial.
+Print Assumptions C08_cleanup_unused_keeps_writes.
 
-Example C08_cleanup_nonvacuous :
-  let t := BCons (SExpr false [OOther] (OTemp 1)) (BCons (SExpr false [OOther] (OTemp 2)) (BCons (SOther [OTemp 1]) BNil)) in
-  temp_lin (cleanup_unused t) = [AW (OTemp 1); AR (OTemp 1)].
-Proof. exact cleanup_unused_nonvacuous. Qed.
-Print Assumptions C08_cleanup_nonvacuous.
+(** non-vacuity on the chained-cast witness: hypotheses hold, the result reads t1 after writing t1, and the
+    side condition is false for the pass as it was coded before *)
+Example C08_cleanup_preserves_nonvacuous :
+  def_before_use_b [] boolcast_witness = true /\
+  bc_consistent (cleanup_unused boolcast_witness) = true /\ mu_closed [] (cleanup_unused boolcast_witness) = true /\
+  temp_lin (cleanup boolcast_witness) = [AW (OTemp 1); AR (OTemp 1)] /\
+  bc_consistent_gen false (cleanup_unused boolcast_witness) = false.
+Proof. exact cleanup_preserves_nonvacuous. Qed.
+Print Assumptions C08_cleanup_preserves_nonvacuous.
+
+(** regression: the bool-cast pass as coded before 1da1fb5 lost the write of a chained cast *)
+Theorem C08_cleanup_coded_refuted :
+  exists t, search_invalid [] t = Accept /\ def_before_use [] t /\ ~ def_before_use [] (cleanup_coded t).
+Proof. exact boolcast_refuted. Qed.
+Print Assumptions C08_cleanup_coded_refuted.
 
 (** definite assignment of the emitted process body is sound for the VHDL semantics *)
 Theorem C08_def_assign_sound : forall T body sg ev v1 v2,
